@@ -149,7 +149,7 @@ func (w *Sink) Write(p []byte) (int, error) {
 		w.AfterFail++
 		return 0, ErrInjected
 	}
-	if w.AllowFail && !w.Failed && !w.NoSchedule {
+	if w.AllowFail && (!w.Failed || w.FailOnce) && !w.NoSchedule {
 		n := 2
 		if len(p) > 1 {
 			n = 3
